@@ -1,5 +1,6 @@
 import XyzModel.Batch
 import XyzModel.Core
+import XyzModel.ToDs
 /-!
 # Coarse (operation-level) model of a `Crop` on disk (xyzpy/gen/cropping.py)
 
@@ -275,6 +276,26 @@ def reapRaw {β} (P : Perms) (nanLike : β → β) (s : St β) (o : ReapOpts) : 
       | [] => Nest.node []
     let s2 := if cleanUpResolved o.cleanUp o.allowIncomplete then { s1 with dir := none } else s1
     .ok (s2, out)
+
+/-- `reap_combos_to_ds` / `reap_runner`: the reaped results labelled with the runner's description.
+Results are lists of outputs; the placeholder of a missing batch is `nan_like_result` of a whole reference result. -/
+def reapToDs {β} (P : Perms) (nanLike : β → β) (dfl : β) (d : ToDs.Desc) (s : St (List β)) (o : ReapOpts) :
+    Except Err (St (List β) × ToDs.DS β) :=
+  match reapLinear P (fun r => r.map nanLike) s o with
+  | .error e => .error e
+  | .ok (s1, info, results) =>
+    let s2 := if cleanUpResolved o.cleanUp o.allowIncomplete then { s1 with dir := none } else s1
+    .ok (s2, ToDs.labelLinear d dfl nanLike info.sweep results)
+
+/-- DataFrame form: one row per setting, in enumeration order -/
+def reapToDf {β} (P : Perms) (nanLike : β → β) (d : ToDs.Desc) (s : St (List β)) (o : ReapOpts) :
+    Except Err (St (List β) × List (ToDs.Row β)) :=
+  match reapLinear P (fun r => r.map nanLike) s o with
+  | .error e => .error e
+  | .ok (s1, info, results) =>
+    let s2 := if cleanUpResolved o.cleanUp o.allowIncomplete then { s1 with dir := none } else s1
+    .ok (s2, (info.sweep.locs.zip results).map fun (loc, r) =>
+      { loc := loc, extra := d.constants ++ d.attrs, outputs := r })
 
 /-! ### crops attached to a farmer (Runner / Harvester / Sampler): order of delivery and deletion -/
 
